@@ -1944,7 +1944,23 @@ class CallsMixin:
         if name != 'isascii':
             # trusted: ''.isdigit() / ''.isnumeric() / ''.isalpha() / ''.islower() are False in CPython
             self.assume(z3.Implies(f(x), z3.Length(x) > 0))
+        ascii_ = z3.InRe(x, z3.Star(z3.Range(chr(0), chr(127))))
+        if name in ('isdigit', 'isnumeric'):
+            # trusted: on ASCII strings isdigit()/isnumeric() hold exactly for non-empty strings over 0-9
+            self.assume(z3.Implies(ascii_, f(x) == z3.InRe(x, z3.Plus(z3.Range('0', '9')))))
+        if name == 'isalpha':
+            self.assume(z3.Implies(ascii_, f(x) == z3.InRe(x, z3.Plus(z3.Union(z3.Range('a', 'z'), z3.Range('A', 'Z'))))))
+        if name == 'isascii':
+            self.assume(f(x) == ascii_)
         return VBool(f(x))
+
+    def bi_str_capitalize(self, b, args, kwargs, node):
+        """str.capitalize(): uninterpreted, length preserving on ASCII (trusted); nothing else is assumed about it."""
+        f = z3.Function('str_capitalize', S, S)
+        x = Value.s(b.self_val)
+        r = f(x)
+        self.assume(z3.Implies(z3.InRe(x, z3.Star(z3.Range(chr(0), chr(127)))), z3.Length(r) == z3.Length(x)))
+        return VStr(r)
 
     def bi_str_isnumeric(self, b, args, kwargs, node):
         return self._str_pred('isnumeric', b)
